@@ -58,6 +58,8 @@ pub struct ExtMetadataBlockLevel9 {
 
 impl ExtMetadataBlockLevel9 {
     pub(crate) fn parse(reader: &mut BsIoSliceReader, length: u64) -> Result<ExtMetadataBlock> {
+        ensure!(matches!(length, 1 | 17), "Invalid L9 block length: {length}");
+
         let mut block = Self {
             length,
             source_primary_index: reader.get_n(8)?,
@@ -98,6 +100,12 @@ impl ExtMetadataBlockLevel9 {
     }
 
     pub fn validate(&self) -> Result<()> {
+        ensure!(
+            matches!(self.length, 1 | 17),
+            "Invalid L9 block length: {}",
+            self.length
+        );
+
         if self.length > 1 {
             // Custom primaries required
             ensure!(self.source_primary_index == 255);
